@@ -4,13 +4,13 @@ best it evaluated.
 Subjects: `VectorizedOptimizerFactory` / `VectorizedOptimizer.__call__` of
 vizier/_src/algorithms/optimizers/vectorized_base.py driven with
 `VectorizedEagleStrategyFactory` (default config, the gp_ucb_pe production
-config, multiplicative perturbation) and the random strategy of
-random_vectorized_optimizer.py.
+config, multiplicative perturbation, a lowered pool ceiling) and the random
+strategy of random_vectorized_optimizer.py.
 
 How it observes: the score function handed to the optimiser is one parametric
 jax function (quadratic + linear + categorical table + plateau quantisation +
-NaN/-inf region, all selected by array parameters, so one compiled executable
-serves every score-function class of a shape).  Inside it a
+needle + NaN/-inf region, all selected by array parameters, so one compiled
+executable serves every score-function class of a shape).  Inside it a
 `jax.debug.callback` ships every evaluated batch (features, masks, rewards) to
 the harness, so the monitors see the complete evaluation history of the
 suggest-evaluate-update loop as well as the returned
@@ -37,19 +37,30 @@ import numpy as np
 PROPERTY = 'C19'
 LEVEL = 'exploration'
 RULE = ('groups = (strategy in {eagle, eagle with the gp_ucb_pe config, eagle '
-        'multiplicative, random} x feature layout (0..6 continuous, 0..5 '
-        'categorical of 2..6 categories, never both 0) x feature/trial padding '
-        '{none, powers of 2, multiples of 10} x batch size {5,10,25} x '
-        'max_evaluations 1..2000 x count relation {1, <batch, ==batch, >batch, '
-        '==all evaluations} x n_parallel {None,1,2,3} x use_fori x #priors '
-        '{0, few, more than the pool} x float32/float64 x jitted/eager call); '
+        'multiplicative, eagle with a pool ceiling (max_pool_size) at or just '
+        'below the automatic pool size, random} x feature layout (0..6 '
+        'continuous, 0..5 categorical of 2..6 categories, never both 0; wide '
+        'layouts of 9..40 continuous features for which the automatic pool size '
+        'reaches its ceiling) x feature/trial padding {none, powers of 2, '
+        'multiples of 10} x batch size {5,10,25 and 7,8,30,64 which do not '
+        'divide the pool ceiling} x max_evaluations 1..2000 x count relation '
+        '{1, <batch, ==batch, >batch, ==all evaluations} x n_parallel '
+        '{None,1,2,3} x use_fori x #priors {0, few, near-pool = as many as the '
+        'prior part of the pool the optimiser really has takes minus 0..4 '
+        '(preferring counts whose trial-padded array has more rows than '
+        'that), more than the pool} x float32/float64 x jitted/eager call); '
         'per group one compilation and 12..60 cases = score-function class '
         '{interior quadratic, corner-seeking linear, categorical indicator, '
         'plateau, constant, mixture, NaN region, -inf region, large/small '
-        'magnitude} x prior class {random, optimum planted first/last/middle, '
-        'duplicates, corners, coordinates outside the unit cube} x seed; budgets '
-        'below one batch, not a multiple of the batch, just short of the eagle '
-        'pool and ending before the pool is swept. A case is non-trivial unless the score is '
+        'magnitude, needle = ball of radius 0.01 on one category combination '
+        'scoring above everything else} x prior class {random, optimum (needle) '
+        'planted first=oldest/last=newest/middle/at the boundary between the '
+        'priors taken into the pool directly and the merged ones/at a random '
+        'position, duplicates, corners, coordinates outside the unit cube} x '
+        'seed; groups with priors start with the needle planted on the '
+        'oldest, the newest and two boundary priors; budgets below one batch, '
+        'not a multiple of the batch, just short of the eagle pool and ending '
+        'before the pool is swept. A case is non-trivial unless the score is '
         'constant; distinct = hash of (group shape, function class, prior class).')
 ASSUMPTIONS = [
     'reward re-evaluation tolerance: 5e-5 (float32) / 1e-11 (float64) times the '
@@ -79,6 +90,17 @@ ASSUMPTIONS = [
     'seed sensitivity is only demanded of runs without priors on layouts with a '
     'continuous feature and a strictly concave score',
     'jax.debug.callback delivers every batch evaluated inside fori_loop',
+    'needle scores: a point whose squared distance to the needle centre is '
+    'within 1e-8 (float32) / 1e-14 (float64) of the squared radius may score '
+    'either way; such returned rows are not re-scored and such priors are not '
+    'used as the reference of the not-worse-than-prior oracle',
+    'the number of priors of a near-pool group is derived from the pool size '
+    'and prior_trials_pool_pct of the strategy object under test (read, not '
+    'recomputed), so it follows whatever pool the factory really built',
+    'the mechanism id of worse-than-prior on eagle names the observable shape '
+    'under which the prior was lost: pool size not a multiple of the batch, '
+    'more priors than prior slots, trial-padded prior rows exceeding the '
+    'prior slots, and whether the best prior was the oldest/newest/an inner one',
 ]
 REQUIRED_COUNTERS = [
     'results_reevaluated:eagle', 'results_reevaluated:random',
@@ -110,7 +132,8 @@ BATCHES = [5, 10, 25, 25, 5, 10, 25, 7, 8, 30, 64]
 # every group with priors runs these (score class, prior class) pairs first: a
 # needle that only the planted prior point sits on is the sharpest instance of
 # "never worse than the best prior" (the search does not find it by itself)
-LEAD_CASES = [('spike', 'opt-first'), ('spike', 'opt-last'), ('spike', 'opt-edge')]
+LEAD_CASES = [('spike', 'opt-first'), ('spike', 'opt-last'), ('spike', 'opt-edge'),
+              ('spike', 'opt-edge')]
 MAX_REPORTS_PER_MECH = 4
 
 
@@ -412,14 +435,16 @@ def build_env(g):
         env.pool, env.optimizer.strategy.config.prior_trials_pool_pct)
   env.n_prior = g['n_prior']
   if g.get('near_pool') and env.pool_left:
-    # `near-pool`: pool_left - offset prior points; of the offsets (in the
-    # group's order) the first one for which the valid priors fit into the pool
-    # while the trial-padded prior array has more rows than that is preferred
+    # `near-pool`: pool_left - offset prior points; the offsets for which the
+    # valid priors fit into the pool while the trial-padded prior array has
+    # more rows than that are preferred; among the candidates the first in the
+    # group's order or (every other group) the one closest to pool_left
     par = max(1, g['n_parallel'])
     sizes = [max(1, env.pool_left - o) for o in g['near_pool']]
     over = [m for m in sizes
             if padded_dim(m * par, g['padt']) // par > env.pool_left]
-    env.n_prior = (over or sizes)[0] * par
+    cands = over or sizes
+    env.n_prior = (max(cands) if g['near_pool'][0] % 2 == 0 else cands[0]) * par
   env.log = []
   env.ncalls = [0]
   parallel = bool(g['n_parallel'])
@@ -637,7 +662,7 @@ def optimum(env, p, nrng):
   return c, z
 
 
-def gen_priors(env, p, prior_class, nrng):
+def gen_priors(env, p, prior_class, nrng, k=0):
   g = env.g
   m = env.n_prior
   if not m:
@@ -655,12 +680,12 @@ def gen_priors(env, p, prior_class, nrng):
     oc, oz = optimum(env, p, nrng)
     # opt-edge: around the boundary between the most recent priors that are
     # taken into the pool directly and the older ones that are merged in, and
-    # next to the two ends
+    # next to the two ends (which one: the case number k)
     left = (env.pool_left or eagle_pool_size(n + nk, g['batch'])) * max(
         1, g['n_parallel'])
-    edge = [m - left, m - left - 1, m - left + 1, 1, m - 2]
+    edge = [1, m - 2, m - left + 1, m - left - 1, m - left]
     pos = {'opt-first': 0, 'opt-last': m - 1, 'opt-mid': m // 2,
-           'opt-edge': min(m - 1, max(0, edge[int(nrng.integers(len(edge)))])),
+           'opt-edge': min(m - 1, max(0, edge[k % len(edge)])),
            'opt-rand': int(nrng.integers(m))}[prior_class]
     c[pos] = oc
     z[pos] = oz
@@ -1121,7 +1146,8 @@ def run_case(rep, env, case, repeat_check=False):
   g = env.g
   nrng = np.random.default_rng(case['pseed'])
   p = gen_params(env, case['fn'], nrng)
-  prior, prior_c, prior_z = gen_priors(env, p, case['prior'], nrng)
+  prior, prior_c, prior_z = gen_priors(env, p, case['prior'], nrng,
+                                       case.get('k', 0))
   try:
     res, log = env.run(p, case['seed'], prior)
   except Exception as e:  # pylint: disable=broad-except
@@ -1237,7 +1263,7 @@ def run_group(rep, gi, g, n_cases):
     prior_class = PRIOR_CLASSES[(off // 7 + j + (j // nf) * step) % npc]
     if g['n_prior'] and 1 <= j <= len(LEAD_CASES):
       fn, prior_class = LEAD_CASES[j - 1]
-    case = {'group': g, 'gi': gi, 'fn': fn, 'prior': prior_class,
+    case = {'group': g, 'gi': gi, 'fn': fn, 'prior': prior_class, 'k': j,
             'pseed': rng.getrandbits(32), 'seed': rng.getrandbits(30)}
     facts = run_case(rep, env, case, repeat_check=(j % 4 == 0))
     if facts is None:
@@ -1257,7 +1283,7 @@ def run_group(rep, gi, g, n_cases):
       case2 = dict(case, seed=case['seed'] + 1)
       nrng = np.random.default_rng(case2['pseed'])
       p = gen_params(env, fn, nrng)
-      prior, _, _ = gen_priors(env, p, prior_class, nrng)
+      prior, _, _ = gen_priors(env, p, prior_class, nrng, j)
       try:
         res2, _ = env.run(p, case2['seed'], prior)
       except Exception:  # pylint: disable=broad-except
